@@ -25,7 +25,7 @@ import (
 // C05 — thread-safe and pure.
 //
 // Monitor 1 (race run): a race-instrumented build of the same harness runs G
-// goroutines over a shared input set (2600 inputs; thorough 5000: single-bit twins of short inputs, two-quote payloads, attacks padded to 64 KiB-1 MiB, rare-branch inputs, every prefix of ten rich inputs, near-duplicate families differing in one byte, every hand-written seed) with no synchronisation between
+// goroutines over a shared input set (2600 inputs; thorough 5000: single-bit twins of short inputs, two-quote payloads, attacks padded to 64 KiB-1 MiB, rare-branch inputs, every prefix of ten rich inputs, near-duplicate families differing in one byte, every table phrase of three or more words in an attack frame, every hand-written seed) with no synchronisation between
 // the start barrier and the final join (results go to goroutine-private
 // buffers), so the detector sees every unordered pair of accesses the library
 // makes. Reports are counted in the GORACE log, never taken from exit codes.
@@ -81,6 +81,19 @@ func c05Inputs(n int, seed uint64) []string {
 	}
 	for _, s := range fixed {
 		add(s)
+	}
+	// every phrase of three or more words of the live table: the last merge
+	// steps of the folder go through intermediate keys, and an index over them
+	// that is built in map iteration order differs from process to process
+	var phrases []string
+	for k, v := range keywords() {
+		if v != 'F' && strings.Count(k, " ") >= 2 {
+			phrases = append(phrases, strings.ToLower(k))
+		}
+	}
+	sort.Strings(phrases)
+	for _, p := range phrases {
+		add("1 " + p + " union select 1")
 	}
 	// inputs that end inside a construct leave scanner state "dirty"; inputs
 	// whose verdict hinges on one flag are sensitive to it. Every prefix of a
